@@ -8,6 +8,7 @@ Core Lean only.
 -/
 import IrVerif.Lemmas.AtomicSave
 import IrVerif.Lemmas.AtomicSaveLinks
+import IrVerif.Lemmas.AtomicSaveConc
 namespace IrVerif.AtomicSave
 
 /-- **C08_crash** (every crash point, incl. mid-write and crashes while the exception handlers
@@ -985,5 +986,309 @@ example :
       (fun n => if n = 9 then some 0 else none) exSt
     r.faulted = true ∧ content r.final (.user "a-1") = some [7] ∧ content r.final (.user "a-2") = none ∧
     content r.final (.user "m.data") = some [1, 2, 3, 4] := by decide
+
+
+/-! ## Second deepening round: concurrent shard drivers, interleaved effect by effect
+
+Model: `Model/AtomicSaveConc.lean`; helper lemmas: `Lemmas/AtomicSaveConc.lean`. -/
+
+/-- What a crash can leave behind / what the caller sees: the pre-flight refused and nothing happened, or
+the state is one the interleaved run visits (or ends in). -/
+def CVisited (r : CRes) (c : CSt) : Prop := c = r.final ∨ ∃ st ∈ r.steps, c = st.st
+
+theorem conc_visited_inv (newMode : Nat) (jobs : List Job) (sched : List Pick) (s0 : St) (h0 : WF s0) :
+    ∀ c, CVisited (saveShardedConc newMode jobs sched s0) c → CInv newMode jobs s0 c := by
+  intro c hc
+  unfold saveShardedConc at hc
+  split at hc
+  · rcases hc with rfl | ⟨st, hst, _⟩
+    · exact cinv_init newMode jobs s0 h0
+    · simp at hst
+  · have h := crun_inv newMode (P := CInv newMode jobs s0) (fun _ _ => true)
+      (fun c k o e hc he _ => cinv_step newMode jobs s0 c k o e hc he) sched _ (cinv_init newMode jobs s0 h0)
+      (fun _ _ => rfl)
+    rcases hc with rfl | ⟨st, hst, rfl⟩
+    · exact h.1
+    · exact h.2 st hst
+
+/-- **C08_sharded_concurrent_crash** (the concurrent shard drivers of `_write_external_tensors`, 874-911,
+interleaved at the granularity of single file-system effects).  For every list of shards (destination +
+any writer effects: a serial writer, or any interleaving of an inner parallel writer), every schedule —
+which driver performs its next effect, in any order, each effect succeeding or failing (a write after any
+number of bytes), the exception handlers of a failed driver being interleaved with the other drivers like
+everything else — and every state `c` the run visits (= every crash point) or ends in:
+
+* the pre-flight refuses iff a shard destination exists, and then not a single effect is performed;
+* every file that existed before still has its name, its inode, its bytes and its mode;
+* every caller path holds exactly what it held before, or it is the destination of a shard, did not exist
+  before, and holds exactly the complete bytes of that shard (`newBytes`: what the shard's writer produces
+  when it runs to its end undisturbed) — so every shard destination is absent or complete, whatever the
+  other drivers were doing at that moment;
+* no tensor has been invalidated or released. -/
+theorem C08_sharded_concurrent_crash (newMode : Nat) (jobs : List Job) (sched : List Pick) (s0 : St)
+    (h0 : WF s0) :
+    ((saveShardedConc newMode jobs sched s0).refused = jobs.any (fun j => existsP s0.fs (.user j.dest))) ∧
+    ((saveShardedConc newMode jobs sched s0).refused = true →
+      (saveShardedConc newMode jobs sched s0).steps = [] ∧ (saveShardedConc newMode jobs sched s0).final.sh = s0) ∧
+    ∀ c, CVisited (saveShardedConc newMode jobs sched s0) c →
+      (∀ n i, s0.fs.file (.user n) = some i →
+        c.sh.fs.file (.user n) = some i ∧ c.sh.fs.data i = s0.fs.data i ∧ c.sh.fs.mode i = s0.fs.mode i) ∧
+      (∀ n, content c.sh (.user n) = content s0 (.user n) ∨
+        ∃ j ∈ jobs, j.dest = n ∧ content s0 (.user n) = none ∧ (newBytes newMode j).isSome = true ∧
+          content c.sh (.user n) = newBytes newMode j) ∧
+      c.sh.valid = s0.valid ∧ c.sh.mapped = s0.mapped := by
+  refine ⟨?_, ?_, ?_⟩
+  · unfold saveShardedConc; split <;> simp_all
+  · unfold saveShardedConc; split <;> simp
+  · intro c hc
+    have hi := conc_visited_inv newMode jobs sched s0 h0 c hc
+    cases hany : jobs.any (fun j => existsP s0.fs (.user j.dest)) with
+    | true =>
+      have hc' : c.sh = s0 := by
+        unfold saveShardedConc at hc
+        simp only [hany, if_true] at hc
+        rcases hc with rfl | ⟨st, hst, _⟩
+        · rfl
+        · simp at hst
+      rw [hc']
+      exact ⟨fun n i hn => ⟨hn, rfl, rfl⟩, fun n => Or.inl rfl, rfl, rfl⟩
+    | false =>
+      have hj : ∀ j ∈ jobs, s0.fs.file (.user j.dest) = none := by
+        intro j hjm
+        have := List.any_eq_false.mp hany j hjm
+        simp only [existsP, Bool.or_eq_true, not_or] at this
+        cases hf : s0.fs.file (.user j.dest) with
+        | none => rfl
+        | some i => simp [hf] at this
+      refine ⟨?_, ?_, hi.valid, hi.mapped⟩
+      · intro n i hn
+        rcases hi.each n with ho | ⟨j, hjm, hjd, _⟩
+        · exact ⟨by rw [ho, hn], hi.data i (h0.named _ _ hn), hi.mode i (h0.named _ _ hn)⟩
+        · rw [← hjd, hj j hjm] at hn; simp at hn
+      · intro n
+        rcases hi.each n with ho | ⟨j, hjm, hjd, i, hfi, _, hb⟩
+        · left
+          simp only [content, ho]
+          cases hf : s0.fs.file (.user n) with
+          | none => rfl
+          | some i => simp [hi.data i (h0.named _ _ hf)]
+        · right
+          refine ⟨j, hjm, hjd, ?_, ?_, ?_⟩
+          · simp [content, ← hjd, hj j hjm]
+          · rw [← hb]; rfl
+          · simp [content, hfi, hb]
+
+/-- **C08_sharded_concurrent_crash_serial**: `C08_sharded_concurrent_crash` for shards that are written
+serially (the form of `C08_sharded_crash`, now for every interleaving of the shard drivers): in every
+visited state and at the end every caller path holds exactly its previous bytes, or it is a shard
+destination that did not exist and holds exactly the image of that shard's tensors. -/
+theorem C08_sharded_concurrent_crash_serial (newMode : Nat) (cb : Bool) (js : List (String × List Tensor))
+    (sched : List Pick) (s0 : St) (h0 : WF s0) :
+    ∀ c, CVisited (saveShardedConc newMode (js.map (serialJob cb)) sched s0) c → ∀ n,
+      content c.sh (.user n) = content s0 (.user n) ∨
+      ∃ ts, (n, ts) ∈ js ∧ content s0 (.user n) = none ∧ content c.sh (.user n) = some (image ts) := by
+  intro c hc n
+  rcases ((C08_sharded_concurrent_crash newMode (js.map (serialJob cb)) sched s0 h0).2.2 c hc).2.1 n with
+    h | ⟨j, hjm, hjd, hnone, _, hb⟩
+  · exact Or.inl h
+  · right
+    simp only [List.mem_map] at hjm
+    rcases hjm with ⟨⟨d, ts⟩, hmem, rfl⟩
+    simp only [serialJob] at hjd
+    subst hjd
+    exact ⟨ts, hmem, hnone, by rw [hb]; exact newBytes_serial newMode cb d ts⟩
+
+theorem allDone_spec {n : Nat} {c : CSt} (h : allDone n c = true) :
+    ∀ k, k < n → ∃ b, (c.procs k).pc = .done b := by
+  intro k hk
+  simp only [allDone, List.all_eq_true, List.mem_range] at h
+  have := h k hk
+  cases hpc : (c.procs k).pc <;> simp_all
+
+/-- An exception that is in flight in a driver stays with it to the end of the run. -/
+theorem crun_exc_persist (nm : Nat) : ∀ (sched : List Pick) (c : CSt) (k : Nat),
+    Exc (c.procs k).pc → Exc ((crun nm sched c).2.procs k).pc
+  | [], _, _, h => by simpa [crun] using h
+  | pk :: r, c, k, h => by
+    simp only [crun]
+    split
+    · exact crun_exc_persist nm r c k h
+    · apply crun_exc_persist nm r _ k
+      by_cases hk : k = pk.k
+      · subst hk; simp only [upd_same]; exact exc_step_keep nm c.sh _ pk.fault h
+      · simpa [upd_ne _ _ hk] using h
+
+theorem crun_failed_exc (nm : Nat) : ∀ (sched : List Pick) (c : CSt),
+    ∀ st ∈ (crun nm sched c).1, st.failed = true → Exc ((crun nm sched c).2.procs st.k).pc
+  | [], _, st, hst, _ => by simp [crun] at hst
+  | pk :: r, c, st, hst, hf => by
+    cases hn : nextEff (c.procs pk.k).pc with
+    | none =>
+      simp only [crun, hn] at hst ⊢
+      exact crun_failed_exc nm r c st hst hf
+    | some e =>
+      simp only [crun, hn] at hst ⊢
+      simp only [List.mem_cons] at hst
+      rcases hst with rfl | hst
+      · simp only at hf ⊢
+        apply crun_exc_persist nm r _ pk.k
+        simp only [upd_same]
+        cases hq : pk.fault with
+        | none => simp [hq] at hf
+        | some q => exact exc_step_fault nm c.sh _ q e hn
+      · exact crun_failed_exc nm r _ st hst hf
+
+/-- **C08_sharded_concurrent_exception**: the pre-flight passed, the drivers ran under any schedule with any
+failures — in one shard or in several, at `mkdtemp`, anywhere in a writer, at `os.replace` — except that no
+clean-up call (`os.remove`, `os.rmdir`) failed, and every driver has finished, i.e. the
+`with ThreadPoolExecutor(...)` block is left and `_write_external_tensors` returns or re-raises. Then:
+
+* it raises iff some effect failed;
+* no temporary directory and no temporary file of any shard remains — also of the shards that were still
+  queued or in the middle of their writer when another shard failed;
+* every file that existed before has its name, inode, bytes and mode; no tensor was invalidated
+  (and `C08_sharded_concurrent_crash` says what the shard destinations hold). -/
+theorem C08_sharded_concurrent_exception (newMode : Nat) (jobs : List Job) (sched : List Pick) (s0 : St)
+    (h0 : WF s0) (hpre : jobs.any (fun j => existsP s0.fs (.user j.dest)) = false)
+    (hdone : allDone jobs.length (saveShardedConc newMode jobs sched s0).final = true)
+    (hclean : ∀ st ∈ (saveShardedConc newMode jobs sched s0).steps, st.failed = true →
+      st.eff ≠ .removeTmp ∧ st.eff ≠ .rmdirTmp) :
+    (anyRaised jobs.length (saveShardedConc newMode jobs sched s0).final = true ↔
+      ∃ st ∈ (saveShardedConc newMode jobs sched s0).steps, st.failed = true) ∧
+    (∀ k, ((saveShardedConc newMode jobs sched s0).final.procs k).loc.fs.isDir .tmpDir = false ∧
+          ((saveShardedConc newMode jobs sched s0).final.procs k).loc.fs.file .tmpFile = none) ∧
+    (∀ n i, s0.fs.file (.user n) = some i →
+      (saveShardedConc newMode jobs sched s0).final.sh.fs.file (.user n) = some i ∧
+      (saveShardedConc newMode jobs sched s0).final.sh.fs.data i = s0.fs.data i ∧
+      (saveShardedConc newMode jobs sched s0).final.sh.fs.mode i = s0.fs.mode i) ∧
+    (saveShardedConc newMode jobs sched s0).final.sh.valid = s0.valid := by
+  have hcr := (C08_sharded_concurrent_crash newMode jobs sched s0 h0).2.2 _ (Or.inl rfl)
+  have hinv := conc_visited_inv newMode jobs sched s0 h0 _ (Or.inl rfl)
+  have hfin : (saveShardedConc newMode jobs sched s0).final = (crun newMode sched ⟨s0, initProcs jobs⟩).2 := by
+    simp [saveShardedConc, hpre]
+  have hsteps : (saveShardedConc newMode jobs sched s0).steps = (crun newMode sched ⟨s0, initProcs jobs⟩).1 := by
+    simp [saveShardedConc, hpre]
+  have hinit : ∀ k, Clean (initProcs jobs k) ∧ ¬ Exc (initProcs jobs k).pc := by
+    intro k
+    simp only [initProcs]
+    cases jobs[k]? <;> simp [Clean, Exc, noTmp_empty]
+  refine ⟨⟨?_, ?_⟩, ?_, hcr.1, hcr.2.2.1⟩
+  · -- raised -> some effect failed
+    intro hr
+    apply Classical.byContradiction
+    intro hno
+    have hall : ∀ st ∈ (crun newMode sched ⟨s0, initProcs jobs⟩).1, (fun (_ : Eff) (b : Bool) => !b) st.eff st.failed = true := by
+      intro st hst
+      rw [← hsteps] at hst
+      cases hf : st.failed with
+      | false => rfl
+      | true => exact absurd ⟨st, hst, hf⟩ hno
+    have h := crun_inv newMode (P := fun c => ∀ k, ¬ Exc (c.procs k).pc) (fun _ b => !b)
+      (fun c k o e hc _ hok k' => by
+        have ho : o = none := by cases o <;> simp_all
+        subst ho
+        by_cases hk : k' = k
+        · subst hk; simp only [upd_same]; exact nexc_step_ok newMode c.sh _ (hc k')
+        · simpa [upd_ne _ _ hk] using hc k')
+      sched ⟨s0, initProcs jobs⟩ (fun k => (hinit k).2) hall
+    simp only [anyRaised, List.any_eq_true, List.mem_range] at hr
+    rcases hr with ⟨k, _, hk⟩
+    have := h.1 k
+    rw [← hfin] at this
+    have hpc : ((saveShardedConc newMode jobs sched s0).final.procs k).pc = .done true := by simpa using hk
+    rw [hpc] at this
+    exact this rfl
+  · -- some effect failed -> raised
+    rintro ⟨st, hst, hf⟩
+    rw [hsteps] at hst
+    have he := crun_failed_exc newMode sched _ st hst hf
+    rw [← hfin] at he
+    have hk : st.k < jobs.length := by
+      apply Nat.lt_of_not_le
+      intro hle
+      rw [hinv.out st.k hle] at he
+      simp [Exc] at he
+    rcases allDone_spec hdone st.k hk with ⟨b, hb⟩
+    rw [hb] at he
+    simp only [Exc] at he
+    subst he
+    simp only [anyRaised, List.any_eq_true, List.mem_range]
+    exact ⟨st.k, hk, by simp [hb]⟩
+  · -- no temporary path remains
+    have hall : ∀ st ∈ (crun newMode sched ⟨s0, initProcs jobs⟩).1,
+        (fun (e : Eff) (b : Bool) => !b || (e != .removeTmp && e != .rmdirTmp)) st.eff st.failed = true := by
+      intro st hst
+      rw [← hsteps] at hst
+      cases hf : st.failed with
+      | false => rfl
+      | true =>
+        have := hclean st hst hf
+        simp [this.1, this.2]
+    have h := crun_inv newMode (P := fun c => ∀ k, Clean (c.procs k))
+      (fun e b => !b || (e != .removeTmp && e != .rmdirTmp))
+      (fun c k o e hc he hok k' => by
+        by_cases hk : k' = k
+        · subst hk
+          simp only [upd_same]
+          apply clean_step newMode c.sh _ o (hc k')
+          intro hs
+          rw [he]
+          simp only [hs, Bool.not_true, Bool.false_or, Bool.and_eq_true, bne_iff_ne, ne_eq] at hok
+          exact ⟨fun h => hok.1 (Option.some.inj h), fun h => hok.2 (Option.some.inj h)⟩
+        · simpa [upd_ne _ _ hk] using hc k')
+      sched ⟨s0, initProcs jobs⟩ (fun k => (hinit k).1) hall
+    intro k
+    have hc := h.1 k
+    rw [← hfin] at hc
+    by_cases hk : k < jobs.length
+    · rcases allDone_spec hdone k hk with ⟨b, hb⟩
+      simpa [Clean, hb, noTmp] using hc
+    · have := hinv.out k (Nat.le_of_not_lt hk)
+      simpa [Clean, this, noTmp] using hc
+
+/-! ### Non-vacuity of the concurrent theorems -/
+
+/-- two shards written serially -/
+def exJobs : List Job :=
+  [serialJob false ("a-1", [⟨0, [[7, 7]], none⟩]), serialJob false ("a-2", [⟨0, [[8]], none⟩, ⟨1, [[9]], none⟩])]
+
+/-- round robin between the two drivers; shard 1's second write (its 6th effect) fails -/
+def exSched (fail : Bool) : List Pick :=
+  (List.range 24).map fun i => ⟨i % 2, if fail && i == 11 then some 0 else none⟩
+
+example : WF exSt ∧ exJobs.any (fun j => existsP exSt.fs (.user j.dest)) = false := ⟨exSt_wf, by decide⟩
+example : ∀ j ∈ exJobs, ∀ e ∈ j.body, e.isWriter = true := by decide
+example : exJobs.map (newBytes 420) = [some [7, 7], some [8, 9]] := by decide
+/-- fault free: both shards complete, everything finished, nothing raised, nothing left -/
+example :
+    let r := saveShardedConc 420 exJobs (exSched false) exSt
+    r.refused = false ∧ allDone 2 r.final = true ∧ anyRaised 2 r.final = false ∧ r.steps.length = 18 ∧
+    content r.final.sh (.user "a-1") = some [7, 7] ∧ content r.final.sh (.user "a-2") = some [8, 9] ∧
+    content r.final.sh (.user "m.data") = some [1, 2, 3, 4] := by decide
+/-- the interleaving is effect by effect: the first six steps alternate between the drivers -/
+example : ((saveShardedConc 420 exJobs (exSched false) exSt).steps.take 6).map (·.k) = [0, 1, 0, 1, 0, 1] := by decide
+/-- shard 1 fails in the middle of its writer right after shard 0's `os.replace` (shard 0's clean-up is
+still to come): shard 0 is complete at the end, shard 1 absent, the function raises, no temporary path
+remains; at the crash point right after the failure shard 0's file is complete, shard 1's destination
+does not exist and its temporary file is half written -/
+example :
+    let r := saveShardedConc 420 exJobs (exSched true) exSt
+    allDone 2 r.final = true ∧ anyRaised 2 r.final = true ∧
+    (∀ st ∈ r.steps, st.failed = true → st.eff ≠ .removeTmp ∧ st.eff ≠ .rmdirTmp) ∧
+    content r.final.sh (.user "a-1") = some [7, 7] ∧ content r.final.sh (.user "a-2") = none ∧
+    content r.final.sh (.user "m.data") = some [1, 2, 3, 4] ∧
+    (r.final.procs 1).loc.fs.isDir .tmpDir = false ∧ (r.final.procs 0).loc.fs.isDir .tmpDir = false := by decide
+def exCrashStep : Option CStep := (saveShardedConc 420 exJobs (exSched true) exSt).steps.find? (·.failed)
+example : exCrashStep.map (·.k) = some 1 := by decide
+example : exCrashStep.map (fun st => (content st.st.sh (.user "a-1"), content st.st.sh (.user "a-2")))
+    = some (some [7, 7], none) := by decide
+example : exCrashStep.map (fun st => (content (st.st.procs 0).loc .tmpFile, content (st.st.procs 1).loc .tmpFile))
+    = some (none, some [8]) := by decide
+/-- a failing clean-up call leaves the temporary directory behind (why the hypothesis is there) -/
+example :
+    let r := saveShardedConc 420 exJobs ((List.range 24).map fun i => ⟨i % 2, if i == 14 then some 0 else none⟩) exSt
+    allDone 2 r.final = true ∧ (r.final.procs 0).loc.fs.isDir .tmpDir = true := by decide
+/-- the pre-flight refuses when a shard name is taken -/
+example : (saveShardedConc 420 [serialJob false ("m.data", [])] (exSched false) exSt).refused = true := by decide
 
 end IrVerif.AtomicSave
